@@ -31,6 +31,10 @@ def run(ctx):
         "expression attributes of the drivers are character-set / alternative expressions evaluated by TLC itself; one free-form expression is "
         "opaque (verdict of booster::regex logged); URI syntax beyond the scheme is not part of the judgement",
         "encodings driven: none, UTF-8, ISO-8859-1, windows-1252 (the non-ASCII-compatible path through iconv is not driven)",
+        "charset sweep: every name of the validator table of src/encoding.cpp in several spellings plus charsets validated by conversion "
+        "(windows-1254, -874, cp866/437/850, KOI8-T, macintosh, TIS-620, Shift_JIS, cp932, EUC-JP, GBK, GB2312, EUC-KR, Big5) x every byte "
+        "(multi-byte: lead >= 0x80 x second byte, sampled in quick); the expected well-formedness bit comes from iconv(3) of the C library, "
+        "which is trusted as the definition of each charset",
         "expression attributes are driven with words of their language followed by / containing LF, CR LF, LF LF (API-built and JSON-loaded "
         "rules); pure 7-bit inputs with C0 / DEL bytes are driven under every declared encoding",
     ]
@@ -78,6 +82,7 @@ def run(ctx):
         job("chars2", ["frag", "chars2", 3, 0, 1, erid(3, 1, 1, 1, 1, 1), erid(3, 1, 0, 1, 1, 3)], 1)
         job("lf", ["frag", "lf", 4, 0, 1, erid(3, 3, 1), erid(3, 3, 0, js=1)], 1)
         job("ctl", ["frag", "ctl", 3, 0, 1, erid(3, 1, 1, enc=1), erid(3, 1, 0, enc=2), erid(3, 1, 0, enc=3, js=1)], 1)
+        job("enc", ["enc", 13, 0, 0, 1], 2)
         job("rnd", ["rnd", 900, 200, 0, 1] + fam, 3)
     else:
         fam = list(range(32)) + [33, 38, 44, 51]
@@ -90,6 +95,7 @@ def run(ctx):
         job("chars2", ["frag", "chars2", 4, 0, 1, erid(3, 1, 1, 1, 1, 1), erid(3, 1, 0, 1, 1, 3), erid(3, 1, 0, 1, 1, 2)], 2)
         job("lf", ["frag", "lf", 5, 0, 1, erid(3, 3, 1), erid(3, 3, 0, js=1), erid(3, 3, 0)], 3)
         job("ctl", ["frag", "ctl", 4, 0, 1, erid(3, 1, 1, enc=1), erid(3, 1, 0, enc=2), erid(3, 1, 0, enc=3, js=1), erid(3, 1, 1, enc=3)], 2)
+        job("enc", ["enc", 1, 1, 0, 1], 6)
         job("rnd", ["rnd", 3000, 400, 0, 1] + fam, 12)
         job("rndL", ["rnd", 60, 1500, 0, 1] + fam[:12], 2)
     NT = 6 if q else 12
@@ -109,7 +115,7 @@ def run(ctx):
         for x in rej:
             report(ctx, shard, x)
     # drift: the mechanism model's own prediction (never a violation)
-    dtr = [t for t in traces if any(k in os.path.basename(t) for k in (("tok", "rnd", "lf", "ctl") if q else ("tok", "rnd", "attr", "lf", "ctl")))]
+    dtr = [t for t in traces if any(k in os.path.basename(t) for k in (("tok", "rnd", "lf", "ctl", "enc") if q else ("tok", "rnd", "attr", "lf", "ctl", "enc")))]
     dres = shard.parallel_print_pass(ctx, "Xss/XssTokTrace.tla", "XssTokDrift.cfg", dtr, "DRIFT", threads=NT)
     nd = 0
     for t, rows in dres.items():
@@ -136,14 +142,19 @@ def run(ctx):
 
 def report(ctx, shard, x):
     """classify a rejected block with the diagnosis spec and report each failing input"""
-    rows = shard.parallel_print_pass(ctx, "Xss/XssTokTrace.tla", "XssTokWhy.cfg", [x["path"]], "WHY", threads=1).get(x["path"], [])
+    sweep = '"e":"E"' in open(x["path"]).read()          # charset sweep block (E lines) or call bundles (F lines)
+    rows = shard.parallel_print_pass(ctx, "Xss/XssTokTrace.tla", "XssTokWhy.cfg", [x["path"]], "WHYE" if sweep else "WHY",
+                                     threads=1).get(x["path"], [])
     if not rows:
         ctx.violation("F:unclassified", "trace line rejected: %s" % x["event"][:200], x["path"])
         return
     lines = open(x["path"]).read().splitlines()
     rid = "?"
     try:
-        rid = json.loads(lines[0]).get("rid")
+        r0 = json.loads(lines[0])
+        rid = r0.get("rid")
+        if sweep:
+            rid = "%s, encoding %r (oracle: iconv %s)" % (rid, r0.get("encname"), r0.get("iconv"))
     except Exception:
         pass
     seen = set()
@@ -158,7 +169,7 @@ def report(ctx, shard, x):
                             "validate-vs-filter-mismatch", "valid-input-changed", "valid-input-ill-formed", "out-ill-formed"), f[2:]):
             if not v:
                 why.append(name)
-        sig = "F:" + "+".join(sorted(set(w.replace("-remove", "").replace("-escape", "") for w in why)))
+        sig = ("E:" if sweep else "F:") + "+".join(sorted(set(w.replace("-remove", "").replace("-escape", "") for w in why)))
         try:
             e = json.loads(lines[ln - 1])
             desc = "rule set %s, input %r -> remove %r / escape %r : %s" % (
